@@ -11,6 +11,7 @@ import Compass.Drv.C14
 import Compass.Drv.C17
 import Compass.Drv.C19
 import Compass.Drv.C13
+import Compass.Drv.C06
 
 /-- `driver <prop>`: reads one case per line on stdin, prints the model's canonical output line -/
 partial def loop (h : IO.FS.Stream) (out : IO.FS.Stream) (f : String → String) : IO Unit := do
@@ -42,6 +43,8 @@ def dispatch : String → Option (String → String)
   | "C17" => some Compass.Drv.C17.run
   | "C19" => some Compass.Drv.C19.run
   | "C13" => some Compass.Drv.C13.run
+  | "C06" => some Compass.Drv.C06.run
+  | "C12" => some Compass.Drv.C06.run
   | _ => none
 
 def main (args : List String) : IO UInt32 := do
